@@ -131,7 +131,9 @@ TNext ==
   \/ IsEv("enable") /\ Ev.ev \in Events /\ SEnable(Ev.ev) /\ Ev.ret = TRUE /\ Post
   \/ IsEv("disable") /\ Ev.ev \in Events /\ SDisable(Ev.ev) /\ Ev.ret = TRUE /\ Post
   \/ IsEv("destroy") /\ Ev.ev \in Events /\ SDestroy(Ev.ev) /\ Post
-  \/ IsEv("raise") /\ Ev.s \in Sigs /\ SRaise(Ev.s) /\ SentOK(Ev.s, g'.sent)
+  \* (the calls of the pre-existing handler are compared at the following quiet line, after the loops have settled; the
+  \*  count logged here, right after the sending call returned, is informational)
+  \/ IsEv("raise") /\ Ev.s \in Sigs /\ SRaise(Ev.s) /\ Ev.sentbad = 0
   \/ TRead
   \/ TQuiet
   \/ IsEv("batch") /\ Ev.L \in Loops /\ SBatch(Ev.L, Ev.ops) /\ Post
